@@ -234,12 +234,17 @@ def _find_all_unknown_paths(
         _RecursivePathNode.from_path(path, known_paths, exclude)
         for path in session.config["paths"]
     ]
+    # Overlapping or repeated paths yield the same unknown paths more than once.
     return list(
-        itertools.chain.from_iterable(
-            [
-                _find_all_unknown_paths_per_recursive_node(node, include_directories)
-                for node in recursive_nodes
-            ]
+        dict.fromkeys(
+            itertools.chain.from_iterable(
+                [
+                    _find_all_unknown_paths_per_recursive_node(
+                        node, include_directories
+                    )
+                    for node in recursive_nodes
+                ]
+            )
         )
     )
 
